@@ -57,17 +57,15 @@ Proof.
   rewrite IH by lia. reflexivity.
 Qed.
 
-(* the loop over the nonunique keys, seen from one row: the decrements add up *)
+(* the loop over the nonunique keys, seen from one row *)
 Lemma fold_step_closed s rows ks : forall vals, length vals = length rows ->
   fold_left (doseid_step s rows) ks vals
-  = map (fun rv => snd rv - zsum (map (fun k => dec_of s rows k (fst rv)) ks)) (combine rows vals).
+  = map (fun rv => fold_left (stepv s rows (fst rv)) ks (snd rv)) (combine rows vals).
 Proof.
   induction ks as [|k ks IH]; intros vals Hl.
-  - cbn [fold_left map]. change (zsum []) with 0.
-    rewrite <- (map_snd_combine rows vals Hl) at 1. apply map_ext. intros rv. lia.
+  - cbn [fold_left]. rewrite <- (map_snd_combine rows vals Hl) at 1. reflexivity.
   - cbn [fold_left]. rewrite IH.
-    + unfold doseid_step. rewrite combine_map_snd, map_map. apply map_ext. intros rv.
-      cbn [fst snd map]. rewrite zsum_cons. lia.
+    + unfold doseid_step. rewrite combine_map_snd, map_map. apply map_ext. intros rv. reflexivity.
     + unfold doseid_step. rewrite map_length, combine_length. lia.
 Qed.
 
@@ -323,19 +321,39 @@ Section Doseid.
       cbn [andb negb]. destruct (filter _ (filter _ rows)); reflexivity.
   Qed.
 
-  Lemma sum_dec x ks :
-    zsum (map (fun k => dec_of s rows k x) ks) = cond x * Z.of_nat (length (filter (matches x) ks)).
+  (* keys of other tie groups leave the value alone *)
+  Lemma fold_nomatch x ks : (forall k, In k ks -> matches x k = false) ->
+    forall v, fold_left (stepv s rows x) ks v = v.
   Proof.
-    induction ks as [|k ks IH]; [cbn; lia|]. cbn [map filter]. rewrite zsum_cons, IH, dec_match.
-    destruct (matches x k); cbn [length]; lia.
+    induction ks as [|k ks IH]; intros H v; [reflexivity|]. cbn [fold_left].
+    assert (stepv s rows x v k = v) as ->.
+    { unfold stepv. rewrite dec_match, (H k (or_introl eq_refl)). destruct (1 <? v); lia. }
+    apply IH. intros k' Hk'. apply H. right. exact Hk'.
+  Qed.
+
+  (* with at most one key of x's tie group the loop body runs at most once for x *)
+  Lemma fold_le1 x ks : (length (filter (matches x) ks) <= 1)%nat -> forall v,
+    fold_left (stepv s rows x) ks v
+    = match filter (matches x) ks with [] => v | _ => if 1 <? v then v - cond x else v end.
+  Proof.
+    induction ks as [|k ks IH]; intros H v; [reflexivity|]. cbn [fold_left filter] in *.
+    destruct (matches x k) eqn:Em.
+    - cbn [length] in H. rewrite fold_nomatch.
+      + unfold stepv. rewrite dec_match, Em. reflexivity.
+      + intros k' Hk'. destruct (matches x k') eqn:E; [|reflexivity].
+        assert (In k' (filter (matches x) ks)) by (apply filter_In; auto).
+        destruct (filter (matches x) ks); [destruct H0 | cbn in H; lia].
+    - assert (stepv s rows x v k = v) as ->.
+      { unfold stepv. rewrite dec_match, Em. destruct (1 <? v); lia. }
+      apply IH. exact H.
   Qed.
 
   Lemma impl_closed :
-    doseid_core s rows = map (fun x => csf x - cond x * Z.of_nat (length (filter (matches x) NU))) rows.
+    doseid_core s rows = map (fun x => fold_left (stepv s rows x) NU (csf x)) rows.
   Proof.
     unfold doseid_core. fold NU. rewrite cs_closed.
     rewrite fold_step_closed by (rewrite map_length; reflexivity).
-    rewrite combine_map_r, map_map. apply map_ext. intros x. cbn [fst snd]. rewrite sum_dec. reflexivity.
+    rewrite combine_map_r, map_map. apply map_ext. intros x. reflexivity.
   Qed.
 
   Lemma keys_closed : map key_of (ann s rows) = map kx rows.
@@ -368,9 +386,6 @@ Section Doseid.
     Hypothesis Hg : forall x y z, In x rows -> In y rows -> In z rows -> r_amt x = 0 ->
       r_id x = r_id y -> r_time x = r_time y -> r_amt y <> 0 -> r_id x = r_id z -> r_time x = r_time z -> r_amt z <> 0 ->
       r_lab y < r_lab x -> r_lab x < r_lab z -> False.
-    Hypothesis Hh : forall x F, In x rows -> In F rows -> r_amt x = 0 -> r_id x = r_id F -> 0 < r_amt F ->
-      r_lab F < r_lab x -> r_time F = r_time x -> rgf F = rgf x ->
-      (forall y, In y rows -> r_id x = r_id y -> 0 < r_amt y -> r_lab F <= r_lab y) -> False.
 
     Lemma nm_le1 x : In x rows -> (length (filter (matches x) NU) <= 1)%nat.
     Proof.
@@ -437,12 +452,11 @@ Section Doseid.
         rewrite (lab_unique y M Hy HM H1) in H2. congruence.
     Qed.
 
-    (* the four ways of the loop body, for an observation record *)
+    (* the ways of the loop body, for an observation record *)
     Lemma cond_cases x : In x rows -> r_amt x = 0 ->
       (cond x = 1 /\ exists M, In M (Dx x) /\ (forall y, In y (Dx x) -> r_lab y <= r_lab M) /\ r_lab M <= r_lab x
-                               /\ (forall y, In y (Gx x) -> r_lab y <> 0) /\ has_ss s && (0 <? r_ss M) = false)
+                               /\ has_ss s && (0 <? r_ss M) = false)
       \/ (cond x = 0 /\ (Dx x = []
-                         \/ (exists y, In y (Gx x) /\ r_lab y = 0)
                          \/ (exists M, In M (Dx x) /\ r_lab x < r_lab M)
                          \/ (exists M, In M (Dx x) /\ (forall y, In y (Dx x) -> r_lab y <= r_lab M)
                                        /\ has_ss s && (0 <? r_ss M) = true))).
@@ -451,21 +465,16 @@ Section Doseid.
       destruct (Dx x) as [|d0 dtl] eqn:ED; [right; split; [reflexivity | left; reflexivity]|].
       rewrite in_tie_self, Ha. cbn [Z.eqb andb negb].
       destruct (max_spec d0 dtl) as [[M [HM EM]] Hmax]. rewrite <- EM.
-      destruct (existsb (fun y => r_lab y =? 0) (Gx x)) eqn:E0.
-      { right. split; [reflexivity|]. right. left. apply existsb_exists in E0. destruct E0 as [y [Hy Ey]].
-        exists y. split; [exact Hy | apply Z.eqb_eq; exact Ey]. }
       destruct (r_lab x <? r_lab M) eqn:El.
-      { right. split; [reflexivity|]. right. right. left. exists M. split; [exact HM | apply Z.ltb_lt; exact El]. }
+      { right. split; [reflexivity|]. right. left. exists M. split; [exact HM | apply Z.ltb_lt; exact El]. }
       assert (HMr : In M rows) by (rewrite <- ED in HM; apply in_Dx in HM; tauto).
       rewrite (existsb_unique M (fun y => 0 <? r_ss y) HMr).
       destruct (has_ss s && (0 <? r_ss M)) eqn:Es.
-      { right. split; [reflexivity|]. right. right. right. exists M. repeat split; auto.
+      { right. split; [reflexivity|]. right. right. exists M. repeat split; auto.
         intros y Hy. rewrite EM. apply Hmax. exact Hy. }
       left. split; [reflexivity|]. exists M. repeat split; auto.
       - intros y Hy. rewrite EM. apply Hmax. exact Hy.
       - apply Z.ltb_ge in El. exact El.
-      - intros y Hy E. assert (existsb (fun y => r_lab y =? 0) (Gx x) = true); [|congruence].
-        apply existsb_exists. exists y. split; [exact Hy | apply Z.eqb_eq; exact E].
     Qed.
 
     Lemma cond_dose x : r_amt x <> 0 -> cond x = 0.
@@ -534,19 +543,22 @@ Section Doseid.
       rewrite (dose_flag_pos y Hay) in *. lia.
     Qed.
 
-    Lemma pointwise x : In x rows ->
-      csf x - cond x * Z.of_nat (length (filter (matches x) NU)) = wf x.
+    Lemma pointwise x : In x rows -> fold_left (stepv s rows x) NU (csf x) = wf x.
     Proof.
-      intros Hx. assert (Hx0 := Hnonneg x Hx).
+      intros Hx. assert (Hx0 := Hnonneg x Hx). rewrite (fold_le1 x NU (nm_le1 x Hx)).
       destruct (Z.eq_dec (r_amt x) 0) as [Ha|Ha].
       2:{ (* a dose record *)
           rewrite cond_dose by exact Ha. rewrite wf_dose by (apply Z.ltb_lt; lia).
-          unfold csf, c0. rewrite dose_flag_pos by lia. lia. }
+          unfold csf, c0. rewrite dose_flag_pos by lia.
+          destruct (filter (matches x) NU); [reflexivity|]. destruct (1 <? _); lia. }
       assert (Hnd : (0 <? r_amt x) = false) by (apply Z.ltb_ge; lia).
       rewrite wf_nondose by exact Hnd.
       assert (Hcs : csf x = c0 x) by (unfold csf, c0, dose_flag; rewrite Hnd; lia). rewrite Hcs.
-      destruct (cond_cases x Hx Ha) as [[Hc [M [HMD [HMmax [HMle [Hno0 HMss]]]]]]|[Hc Hwhy]]; rewrite Hc.
-      - (* the implementation moves x to the preceding period *)
+      assert (H12 : (1 <? c0 x) = (2 <=? c0 x)).
+      { destruct (1 <? c0 x) eqn:E1; destruct (2 <=? c0 x) eqn:E2; try reflexivity;
+          [apply Z.ltb_lt in E1; apply Z.leb_gt in E2 | apply Z.ltb_ge in E1; apply Z.leb_le in E2]; lia. }
+      destruct (cond_cases x Hx Ha) as [[Hc [M [HMD [HMmax [HMle HMss]]]]]|[Hc Hwhy]]; rewrite Hc.
+      - (* the loop body applies to x: the walk sees the same tie *)
         apply in_Dx in HMD. destruct HMD as [HMr [HMi [HMt HMa]]].
         assert (HMpos : 0 < r_amt M) by (specialize (Hnonneg M HMr); lia).
         assert (HMlt : r_lab M < r_lab x).
@@ -575,59 +587,32 @@ Section Doseid.
         assert (Htied : tied x = true).
         { unfold tied. rewrite El. subst t g v. rewrite HMt, Z.eqb_refl.
           rewrite (Hd L x HLr Hx HMi HMt), Z.eqb_refl, HMss. reflexivity. }
-        assert (Hc0 : c0 x = 1 + c0 L).
-        { unfold c0. rewrite Em, map_app, zsum_app. cbn [map]. rewrite zsum_cons.
-          rewrite (zsum_flags_zero m1 Hm1), dose_flag_pos by exact HL. lia. }
-        assert (H2 : 1 <= c0 L).
-        { assert (0 <= c0 L) by (apply zsum_map_nonneg; apply dose_flag_nonneg).
-          destruct (Z.eq_dec (c0 L) 0) as [E|E]; [|lia]. exfalso.
-          apply (Hh x L Hx HLr Ha HLi HL HLl HMt (Hd L x HLr Hx HMi HMt)).
-          apply (first_dose_of_individual L x HLr HLi E). }
-        rewrite Htied. assert (2 <=? c0 x = true) as -> by (apply Z.leb_le; lia). cbn [andb].
-        assert (length (filter (matches x) NU) = 1%nat) as ->.
-        { assert (A := nm_le1 x Hx).
-          assert (B := nm_ge1 x L Hx HLr ltac:(lia)
-                         ltac:(unfold kx; rewrite HMi, HMt, (Hd L x HLr Hx HMi HMt); reflexivity)). lia. }
-        lia.
-      - (* the implementation leaves x alone: so does the walk *)
-        destruct (tied x && (2 <=? c0 x)) eqn:Esw; [|lia]. exfalso.
-        apply andb_prop in Esw. destruct Esw as [Ht Hc2]. apply Z.leb_le in Hc2.
-        destruct (tied_inv x Ht) as [L [m1 [Em [HLr [HLi [HLl [HLa [Hm1 [Hl1 [HLt [HLg HLs]]]]]]]]]]].
-        assert (HLD : In L (Dx x)) by (apply in_Dx; repeat split; auto; lia).
-        destruct Hwhy as [E|[[y [Hy Ey]]|[[M [HM HMl]]|[M [HM [HMmax HMs]]]]]].
-        + rewrite E in HLD. destruct HLD.
-        + (* label 0 in the tie group: then x is tied with its individual's first dose *)
-          apply in_Gx in Hy. destruct Hy as [Hyr [Hyi Hyt]].
-          assert (Hc0 : c0 x = 1 + c0 L).
-          { unfold c0. rewrite Em, map_app, zsum_app. cbn [map]. rewrite zsum_cons.
-            rewrite (zsum_flags_zero m1 Hm1), dose_flag_pos by exact HLa. lia. }
-          destruct (oldest_dose (mine L)) as [n1 [F [n2 [En [HFa Hn2]]]]]; [unfold c0 in *; lia|].
-          destruct (mine_split L n1 F n2 En) as [-> [_ [HFr [HFi HFl]]]].
-          assert (HF0 : 0 <= r_lab F) by (apply lab_nonneg; exact HFr).
-          assert (R1 : rgf y <= rgf F) by (apply rgf_mono; auto; try lia; congruence).
-          assert (R2 : rgf F <= rgf L) by (apply rgf_mono; auto; lia).
-          assert (R3 : rgf y = rgf x) by (apply Hd; auto).
-          assert (T2 : r_time F <= r_time L) by (apply Hchrono; auto; lia).
-          assert (T1 : r_time y <= r_time F).
-          { destruct (Z.eq_dec (r_lab y) (r_lab F)) as [E|E].
-            - rewrite (lab_unique y F Hyr HFr E). lia.
-            - apply Hchrono; auto; try lia; congruence. }
-          apply (Hh x F); auto; try lia; try congruence.
-          apply first_dose_of_individual; auto; [congruence|].
-          apply zsum_flags_zero. exact Hn2.
-        + apply in_Dx in HM. destruct HM as [HMr [HMi [HMt HMa]]].
-          apply (Hg x L M); auto; try lia.
-        + assert (HM' := HM). apply in_Dx in HM'. destruct HM' as [HMr [HMi [HMt HMa]]].
-          assert (HMpos : 0 < r_amt M) by (specialize (Hnonneg M HMr); lia).
-          assert (HLM := HMmax L HLD).
-          destruct (Z.lt_trichotomy (r_lab M) (r_lab x)) as [Hlt|[Heq|Hgt]].
-          * assert (HMm : In M (mine x)) by (apply in_mine; repeat split; auto).
-            rewrite Em in HMm. apply in_app_or in HMm. destruct HMm as [HMm|[HMm|HMm]].
-            -- specialize (Hm1 M HMm). rewrite dose_flag_pos in Hm1; [lia | exact HMpos].
-            -- subst M. congruence.
-            -- apply in_mine in HMm. lia.
-          * rewrite (lab_unique M x HMr Hx Heq) in HMa. contradiction.
-          * apply (Hg x L M); auto; lia.
+        rewrite Htied. cbn [andb].
+        assert (B := nm_ge1 x L Hx HLr ltac:(lia)
+                       ltac:(unfold kx; rewrite HMi, HMt, (Hd L x HLr Hx HMi HMt); reflexivity)).
+        destruct (filter (matches x) NU); [cbn in B; lia|]. rewrite H12. reflexivity.
+      - (* the loop body leaves x alone: the walk sees no tie *)
+        assert (Hnt : tied x = false).
+        { destruct (tied x) eqn:Ht; [|reflexivity]. exfalso.
+          destruct (tied_inv x Ht) as [L [m1 [Em [HLr [HLi [HLl [HLa [Hm1 [Hl1 [HLt [HLg HLs]]]]]]]]]]].
+          assert (HLD : In L (Dx x)) by (apply in_Dx; repeat split; auto; lia).
+          destruct Hwhy as [E|[[M [HM HMl]]|[M [HM [HMmax HMs]]]]].
+          + rewrite E in HLD. destruct HLD.
+          + apply in_Dx in HM. destruct HM as [HMr [HMi [HMt HMa]]].
+            apply (Hg x L M); auto; try lia.
+          + assert (HM' := HM). apply in_Dx in HM'. destruct HM' as [HMr [HMi [HMt HMa]]].
+            assert (HMpos : 0 < r_amt M) by (specialize (Hnonneg M HMr); lia).
+            assert (HLM := HMmax L HLD).
+            destruct (Z.lt_trichotomy (r_lab M) (r_lab x)) as [Hlt|[Heq|Hgt]].
+            * assert (HMm : In M (mine x)) by (apply in_mine; repeat split; auto).
+              rewrite Em in HMm. apply in_app_or in HMm. destruct HMm as [HMm|[HMm|HMm]].
+              -- specialize (Hm1 M HMm). rewrite dose_flag_pos in Hm1; [lia | exact HMpos].
+              -- subst M. congruence.
+              -- apply in_mine in HMm. lia.
+            * rewrite (lab_unique M x HMr Hx Heq) in HMa. contradiction.
+            * apply (Hg x L M); auto; lia. }
+        rewrite Hnt. cbn [andb].
+        destruct (filter (matches x) NU); [reflexivity|]. destruct (1 <? c0 x); lia.
     Qed.
 
     Lemma refines_core : doseid_core s rows = doseid_walk_from s [] rows.
@@ -712,58 +697,20 @@ Section Doseid.
     rewrite K1, K2, K3 in K. discriminate.
   Qed.
 
-  Lemma derive_first : g_no_tie_after_first_dose (ann s rows) = true ->
-    forall x F, In x rows -> In F rows -> r_amt x = 0 -> r_id x = r_id F -> 0 < r_amt F ->
-      r_lab F < r_lab x -> r_time F = r_time x -> rgf F = rgf x ->
-      (forall y, In y rows -> r_id x = r_id y -> 0 < r_amt y -> r_lab F <= r_lab y) -> False.
-  Proof.
-    intros G x F Hx HF Ha Hi HFa Hl Ht Hr Hfirst.
-    assert (Hx' := Hx). apply in_split in Hx'. destruct Hx' as [pre [post E]].
-    assert (Ea : ann s rows = map hh pre ++ hh x :: map hh post).
-    { rewrite ann_closed. fold hh. change (map (fun x0 => hh x0) rows) with (map hh rows). rewrite E at 1. rewrite map_app. reflexivity. }
-    assert (K := forall_ctx_spec _ _ G _ _ _ Ea). cbn beta in K. apply negb_true_iff in K.
-    assert (HFp : In F pre) by (apply (in_pre pre x post F E HF Hl)).
-    apply in_split in HFp. destruct HFp as [q1 [q2 Ep]].
-    assert (Hq1 : forall y, In y q1 -> r_lab y < r_lab F).
-    { assert (E2 : rows = q1 ++ F :: (q2 ++ x :: post)) by (rewrite E, Ep, <- app_assoc; reflexivity).
-      apply (split_lab q1 F _ E2). }
-    assert (first_dose_of (hh x) (rev (map hh pre)) = Some (hh F)) as Hfd.
-    { assert (HP : a_same (hh x) (hh F) && (0 <? a_amt (hh F)) = true).
-      { unfold a_same, a_id, a_amt, hh. cbn [fst]. rewrite Hi, Z.eqb_refl.
-        apply Z.ltb_lt in HFa. rewrite HFa. reflexivity. }
-      unfold first_dose_of. rewrite filter_rev, rev_involutive.
-      rewrite Ep, map_app, filter_app. cbn [map filter]. rewrite HP.
-      rewrite (filter_false _ (map hh q1)).
-      - reflexivity.
-      - intros ay Hay. apply in_map_iff in Hay. destruct Hay as [y [<- Hy]].
-        unfold a_same, a_id, a_amt, hh. cbn [fst].
-        destruct (r_id x =? r_id y) eqn:Ei; [|reflexivity]. destruct (0 <? r_amt y) eqn:Eam; [|reflexivity].
-        apply Z.eqb_eq in Ei. apply Z.ltb_lt in Eam. exfalso.
-        assert (In y rows) by (rewrite E, Ep; apply in_or_app; left; apply in_or_app; left; exact Hy).
-        specialize (Hfirst y H Ei Eam). specialize (Hq1 y Hy). lia. }
-    rewrite Hfd in K. unfold a_amt, a_tie, a_id, a_time, hh in K. cbn [fst snd] in K.
-    rewrite Ha, Hi, Ht, Hr, !Z.eqb_refl in K. discriminate.
-  Qed.
 End Doseid.
 
 Lemma doseid_refines_lemma d : guard_doseid d = true -> doseid_impl d = Ok (doseid_walk d).
 Proof.
   unfold guard_doseid. intros G.
-  apply andb_prop in G. destruct G as [G Gfirst].
   apply andb_prop in G. destruct G as [G Gbetween].
   apply andb_prop in G. destruct G as [G Gtie].
   apply andb_prop in G. destruct G as [G Gchrono].
   apply andb_prop in G. destruct G as [G Glab].
-  apply andb_prop in G. destruct G as [G Gnonneg].
-  apply andb_prop in G. destruct G as [Gdose Gid].
+  apply andb_prop in G. destruct G as [Gdose Gnonneg].
   unfold doseid_impl, doseid_walk. rewrite Gdose. cbn [negb].
-  unfold g_id_named in Gid.
-  assert (has_evid (ds_sch d) && negb (id_named_ID (ds_sch d)) = false) as ->.
-  { destruct (has_evid (ds_sch d)); cbn in *; [rewrite Gid; reflexivity | reflexivity]. }
   f_equal. apply (refines_core (ds_sch d) (ds_rows d) Glab).
   - apply (derive_nonneg (ds_rows d)). exact Gnonneg.
   - apply (derive_tie (ds_sch d) (ds_rows d) Glab Gtie).
   - apply (derive_chrono (ds_sch d) (ds_rows d) Glab Gchrono).
   - apply (derive_between (ds_sch d) (ds_rows d) Glab Gbetween).
-  - apply (derive_first (ds_sch d) (ds_rows d) Glab Gfirst).
 Qed.
